@@ -268,3 +268,272 @@ Proof.
   exists c1, b1, s1, b2, c2, b3, b4, s2, s3, s4, p1, p2, p3, p4, p5, c3, c4, c5, c6, c7, s5, c8, out, s6, c9, b9, s7, r.
   repeat (split; [assumption|]). exact F5.
 Qed.
+
+(* ================================================================ media AND metadata items, publishing side *)
+From RML Require Import Proofs.MetadataProofs Proofs.InteropMetadata Proofs.MetadataFits Proofs.PlayMetadata.
+
+Inductive pitem := PMedia (video : bool) (data : bytes) (ts : N) (drop : bool) | PMeta (md : metadata) (clock : N).
+Definition pitem_wf (i : pitem) : Prop :=
+  match i with PMedia _ data ts _ => ts < 4294967296 /\ data_wf data | PMeta md clock => md_ok md /\ enc_ok md /\ clock < 4294967296 end.
+Definition pitem_event (app key : bytes) (i : pitem) : sevent :=
+  match i with PMedia video data ts _ => media_event video app key data ts | PMeta md _ => EvMetadata app key md end.
+
+Fixpoint publish_run3 (c : client) (s : server) (items : list pitem) (clock : N) : option (client * server * list sevent) :=
+  match items with
+  | [] => Some (c, s, [])
+  | i :: r =>
+    match (match i with PMedia video data ts drop => client_publish_media video c data ts drop | PMeta md k => client_publish_metadata c md k end) with
+    | (c', COk [CPacket b _]) =>
+      match server_handle_input s b clock with
+      | (s', ROk rs) => match publish_run3 c' s' r clock with Some (c2, s2, evs) => Some (c2, s2, events rs ++ evs) | None => None end
+      | _ => None
+      end
+    | _ => None
+    end
+  end.
+
+Lemma publish_run3_keeps items : forall c s clock sid app key,
+  Link (cl_ser c) (sv_de s) -> ser_ok (cl_ser c) -> ser_ok (sv_ser s) -> publishing_stream c = Ok sid -> sid < 4294967296 ->
+  sv_connected s = true -> publishing_key s sid = Some (app, key) -> Forall pitem_wf items ->
+  exists c' s', publish_run3 c s items clock = Some (c', s', map (pitem_event app key) items) /\
+    Link (cl_ser c') (sv_de s') /\ ser_ok (cl_ser c') /\ ser_ok (sv_ser s') /\ publishing_stream c' = Ok sid /\
+    sv_connected s' = true /\ publishing_key s' sid = Some (app, key).
+Proof.
+  induction items as [|i r IH]; intros c s clock sid app key HL Hcs Hser Hps Hsid Hc Hk Hwf.
+  - exists c, s. repeat split; assumption.
+  - inversion Hwf as [|? ? Hi Hr]; subst. destruct i as [video data ts drop|md k]; cbn [pitem_wf] in Hi.
+    + destruct Hi as [Hts Hd].
+      destruct (publish_media_delivered c s video data ts drop clock sid app key HL Hser Hps Hsid Hts Hd Hc Hk)
+        as [b [c1 [s1 [rs [E1 [E2 [Hev [HL1 [Hser1 [Hps1 [Hc1 Hk1]]]]]]]]]]].
+      assert (Hcs1 : ser_ok (cl_ser c1)).
+      { pose proof (client_step_good c (CopMedia video data ts drop) Hcs) as [_ Hg]. cbn [client_step] in Hg. rewrite E1 in Hg. exact Hg. }
+      destruct (IH c1 s1 clock sid app key HL1 Hcs1 Hser1 Hps1 Hsid Hc1 Hk1 Hr) as [c2 [s2 [E3 Hinv]]].
+      exists c2, s2. split; [|exact Hinv]. cbn [publish_run3 map pitem_event]. rewrite E1, E2, E3, Hev. reflexivity.
+    + destruct Hi as [Hm [He Hk0]].
+      destruct (publish_metadata_always_delivered c s md k clock sid app key HL Hcs Hser Hps Hsid Hk0 Hm He Hc Hk)
+        as [b [c1 [s1 [rs [E1 [E2 [Hev [HL1 [Hcs1 [Hser1 [Hps1 [Hc1 Hk1]]]]]]]]]]]].
+      destruct (IH c1 s1 clock sid app key HL1 Hcs1 Hser1 Hps1 Hsid Hc1 Hk1 Hr) as [c2 [s2 [E3 Hinv]]].
+      exists c2, s2. split; [|exact Hinv]. cbn [publish_run3 map pitem_event]. rewrite E1, E2, E3, Hev. reflexivity.
+Qed.
+
+(* C02_publish_session for sequences of metadata, audio and video items *)
+Theorem publish_session_all_items c s app key t items k1 k2 k3 k4 k5 k6 k7 km ks1 ks2 :
+  Link (cl_ser c) (sv_de s) -> Link (sv_ser s) (cl_de c) -> ser_ok (cl_ser c) -> ser_ok (sv_ser s) ->
+  cl_state c = Connected -> cl_next_tr c < 4294967296 -> sv_next_stream s < 4294967296 ->
+  sv_connected s = true -> sv_app s = Some app -> utf8_valid key = true -> lenN key <= 65000 ->
+  k1 < 4294967296 -> k2 < 4294967296 -> k3 < 4294967296 -> k5 < 4294967296 -> ks1 < 4294967296 ->
+  (forall w, ack_window (sv_ack s) = Some w -> ack_since (sv_ack s) + 2 * (17 * (lenN key + 200) + 16) < w) ->
+  (forall w, ack_window (cl_ack c) = Some w -> ack_since (cl_ack c) + 3 * (17 * (lenN key + 200) + 16) < w) ->
+  Forall pitem_wf items ->
+  exists c1 b1 s1 b2 c2 b3 s2 s3 b4 b5 c3 c4 c5 s4 c6 b6 s5 r,
+    client_request_publishing c key t k1 = (c1, COk [CPacket b1 false]) /\
+    server_handle_input s b1 k2 = (s1, ROk [SPacket b2 false]) /\
+    client_handle_input c1 b2 k3 = (c2, COk [CPacket b3 false]) /\
+    server_handle_input s1 b3 k4 = (s2, ROk [SEvent (EvPublishRequested (sv_next_req s) app key (mode_of_type t))]) /\
+    server_accept s2 (sv_next_req s) k5 = (s3, ROk [SPacket b4 false; SPacket b5 false]) /\
+    client_handle_input c2 b4 k6 = (c3, COk []) /\
+    client_handle_input c3 b5 k7 = (c4, COk [CEvent CPublishAccepted]) /\
+    publish_run3 c4 s3 items km = Some (c5, s4, map (pitem_event app key) items) /\
+    client_stop_publishing c5 ks1 = (c6, COk [CPacket b6 false]) /\ cl_state c6 = Connected /\
+    server_handle_input s4 b6 ks2 = (s5, ROk r) /\ events r = [EvPublishFinished app key].
+Proof.
+  intros HL1 HL2 Hcs Hss Hst Htr Hid Hconn Happ Hkey Hkl K1 K2 K3 K5 KS HWs HWc Hitems.
+  destruct (publish_completes_windows c s app key t k1 k2 k3 k4 k5 k6 k7 HL1 HL2 Hcs Hss Hst Htr Hid Hconn Happ Hkey Hkl K1 K2 K3 K5 HWs HWc)
+    as [c1 [b1 [s1 [b2 [c2 [b3 [s2 [s3 [b4 [b5 [c3 [c4 [E1 [E2 [E3 [E4 [E5 [E6 [E7 [Hps [Hpk [HLa [HLb [Hcs4 [Hss3 Hconn3]]]]]]]]]]]]]]]]]]]]]]]]].
+  destruct (publish_run3_keeps items c4 s3 km (sv_next_stream s) app key HLa Hcs4 Hss3 Hps Hid Hconn3 Hpk Hitems)
+    as [c5 [s4 [Erun [HL5 [Hcs5 [Hss4 [Hps5 [Hconn4 Hpk4]]]]]]]].
+  assert (Hst5 : cl_state c5 = Publishing /\ cl_stream c5 = Some (sv_next_stream s)).
+  { unfold publishing_stream in Hps5. destruct (cl_state c5); try discriminate Hps5. destruct (cl_stream c5) as [x|]; [|discriminate Hps5].
+    injection Hps5 as ->. split; reflexivity. }
+  destruct Hst5 as [Hst5 Hstr5].
+  destruct (proj1 (publishing_key_spec s4 (sv_next_stream s) app key) Hpk4) as [Happ4 [mode Hlk]].
+  destruct (stop_publishing_raises_finished c5 s4 (sv_next_stream s) app key mode ks1 ks2 HL5 Hcs5 Hss4 Hst5 Hstr5 Hid KS Hconn4 Happ4 Hlk)
+    as [c6 [b6 [s5 [r [F1 [F2 [F3 [F4 [F5 _]]]]]]]]].
+  exists c1, b1, s1, b2, c2, b3, s2, s3, b4, b5, c3, c4, c5, s4, c6, b6, s5, r.
+  repeat (split; [assumption|]). exact F5.
+Qed.
+
+(* ================================================================ media AND metadata items, playing side *)
+(* the receiving step of ProtocolFlow once more, this time keeping what the client wrote before its results (an Acknowledgement or nothing) *)
+Lemma client_handle_packet_out c b clock p de1 de3 :
+  ser_ok (cl_ser c) -> clock < 4294967296 ->
+  get_next_message (cl_de c) b = (de1, DMsg p) -> get_next_message de1 [] = (de3, DNone) ->
+  (forall c0, cl_de (fst (ch_message c0 p clock)) = cl_de c0) ->
+  exists c0 pre, (cl_cfg c0 = cl_cfg c /\ cl_next_tr c0 = cl_next_tr c /\ cl_trs c0 = cl_trs c /\ cl_state c0 = cl_state c /\
+    cl_app c0 = cl_app c /\ cl_stream c0 = cl_stream c) /\ cl_de c0 = cl_de c /\ ser_ok (cl_ser c0) /\ cevents pre = [] /\
+    sends (cl_ser c) (cpacket_list pre) (cl_ser c0) /\
+    client_handle_input c b clock =
+      (let '(c1, r) := ch_message (cupd_de c0 de1) p clock in
+       match r with COk rs => (cupd_de c1 de3, COk (pre ++ rs)) | _ => (c1, r) end).
+Proof.
+  intros Hser Hclk G1 G2 Hframe. unfold client_handle_input.
+  assert (Hloop : forall fuel c0 acc, cl_de c0 = cl_de c ->
+            ch_loop (S (S fuel)) c0 b clock acc =
+              (let '(c1, r) := ch_message (cupd_de c0 de1) p clock in
+               match r with COk rs => (cupd_de c1 de3, COk (acc ++ rs)) | _ => (c1, r) end)).
+  { intros fuel c0 acc Hd. cbn [ch_loop]. rewrite Hd, G1. pose proof (Hframe (cupd_de c0 de1)) as Hf. change (cl_de (cupd_de c0 de1)) with de1 in Hf.
+    destruct (ch_message (cupd_de c0 de1) p clock) as [c1 r]. cbn [fst] in Hf. destruct r as [rs|e|]; try reflexivity.
+    rewrite Hf, G2. reflexivity. }
+  destruct (ack_step (cl_ack c) (lenN b)) as [a [n|]] eqn:Ea.
+  - destruct (ack_send_ok (cl_ser c) n clock Hser) as [bk [ser2 [Ek Hser2]]]. rewrite Ek.
+    assert (Hn : n < 4294967296).
+    { unfold ack_step in Ea. destruct (ack_window (cl_ack c)) as [w|]; [|discriminate Ea]. cbv zeta in Ea.
+      destruct (w <=? _); [|discriminate Ea]. injection Ea as _ <-. unfold u32_sat_add. lia. }
+    exists (cupd_ack (cupd_ser c ser2) a), [CPacket bk false]. split; [repeat split|]. split; [reflexivity|]. split; [exact Hser2|]. split; [reflexivity|].
+    split; [|apply Hloop; reflexivity]. cbn [cpacket_list flat_map List.app cl_ser cupd_ack cupd_ser].
+    eapply (sends_msg (cl_ser c) (MAcknowledgement n) clock false bk ser2); [|exact Hclk|exact Ek|apply sends_nil].
+    right. right. right. right. exists n. split; [reflexivity|exact Hn].
+  - exists (cupd_ack c a), []. split; [repeat split|]. split; [reflexivity|]. split; [exact Hser|]. split; [reflexivity|].
+    split; [apply sends_nil|apply Hloop; reflexivity].
+Qed.
+
+(* a metadata item the server sends: raised by the playing client as exactly that metadata, whatever the windows *)
+Theorem play_metadata_out s c sid md clock cclock :
+  Link (sv_ser s) (cl_de c) -> ser_ok (cl_ser c) -> ser_ok (sv_ser s) -> playing_on c sid -> sid < 4294967296 ->
+  clock < 4294967296 -> cclock < 4294967296 -> md_ok md -> enc_ok md ->
+  exists b ser' c' pre,
+    server_send_metadata s sid md clock = (upd_ser s ser', ROk [SPacket b false]) /\
+    client_handle_input c b cclock = (c', COk (pre ++ [CEvent (CMetadata md)])) /\ cevents pre = [] /\
+    Link ser' (cl_de c') /\ ser_ok (cl_ser c') /\ ser_ok ser' /\ playing_on c' sid /\ cl_state c' = cl_state c /\
+    sends (cl_ser c) (cpacket_list pre) (cl_ser c').
+Proof.
+  intros HL Hcs Hss [Hst Hstr] Hsid Hclk Hcclk Hm He.
+  destruct (server_send_metadata_ok s sid md clock Hss Hm He) as [b [ser' [Esend [Es Hser']]]].
+  set (M := MAmf0Data (smd_values md)) in *.
+  assert (Hok : msg_ok M) by (cbn [msg_ok M smd_values wf_values]; split; [reflexivity|split; [exact (md_props_server_wf md Hm He)|exact I]]).
+  (* the decoded message, as in ProtocolFlow.client_receives *)
+  destruct (send_message_inv _ _ _ _ _ _ _ _ Es) as [tid [body [Etp Eser]]].
+  destruct (plain_tid M tid body I Etp) as [Ht1 Ht2].
+  pose proof (msg_roundtrip M tid body Hok Etp) as Hof.
+  set (p := {| m_ts := clock; m_tid := tid; m_sid := sid; m_data := body |}) in *.
+  pose proof HL as [sd [HSim _]].
+  destruct (serialize_refused_or_ok (sv_ser s) p false false (Sim_max _ _ HSim)) as [Hbig _].
+  assert (Hlen : lenN body <= 16777215).
+  { destruct (16777215 <? lenN body) eqn:El; [|lia]. rewrite (Hbig ltac:(cbn [p m_data]; lia)) in Eser. discriminate. }
+  assert (Hwf : msg_wf p) by (unfold msg_wf, p; cbn [m_ts m_tid m_sid m_data]; repeat split; lia).
+  destruct (link_message (sv_ser s) (cl_de c) p false false HL Hwf Ht2) as [b' [ser2 [de1 [de3 [Hs [G1 [G2 HL2]]]]]]].
+  rewrite Eser in Hs. injection Hs as <- <-.
+  assert (Hframe : forall c0, cl_de (fst (ch_message c0 p cclock)) = cl_de c0).
+  { intros c0. unfold ch_message. cbn [p m_tid m_data]. rewrite Hof. unfold M. apply ch_data_de. }
+  destruct (client_handle_packet_out c b cclock p de1 de3 Hcs Hcclk G1 G2 Hframe)
+    as [c0 [pre [[E1 [E2 [E3 [E4 [E5 E6]]]]] [Hd0 [Hs0 [Hpre [Hsends Hrun]]]]]]].
+  assert (Hmm : ch_message (cupd_de c0 de1) p cclock = (cupd_de c0 de1, COk [CEvent (CMetadata md)])).
+  { unfold ch_message. cbn [p m_tid m_data m_sid]. rewrite Hof. unfold M, smd_values. cbv iota. unfold ch_data. cbn [cl_stream cupd_de]. rewrite E6, Hstr, N.eqb_refl.
+    rewrite bytes_eqb_refl. rewrite (metadata_roundtrip_server md Hm). reflexivity. }
+  rewrite Hmm in Hrun. cbv iota beta in Hrun.
+  exists b, ser'. eexists. exists pre. split; [exact Esend|]. split; [exact Hrun|]. split; [exact Hpre|].
+  cbn [cl_state cl_stream cl_de cl_ser cupd_de].
+  split; [exact HL2|]. split; [exact Hs0|]. split; [exact Hser'|].
+  split; [unfold playing_on; cbn [cl_state cl_stream cupd_de]; split; [rewrite E4; exact Hst|rewrite E6; exact Hstr]|]. split; [exact E4|exact Hsends].
+Qed.
+
+Definition pitem_cevent (i : pitem) : cevent :=
+  match i with PMedia video data ts _ => cmedia_event video data ts | PMeta md _ => CMetadata md end.
+
+Fixpoint play_run3 (s : server) (c : client) (sid : N) (items : list pitem) (clock : N)
+  : option (server * client * list cevent * list bytes) :=
+  match items with
+  | [] => Some (s, c, [], [])
+  | i :: r =>
+    match (match i with PMedia video data ts drop => server_send_media video s sid data ts drop | PMeta md k => server_send_metadata s sid md k end) with
+    | (s', ROk [SPacket b _]) =>
+      match client_handle_input c b clock with
+      | (c', COk rs) =>
+        match play_run3 s' c' sid r clock with
+        | Some (s2, c2, evs, out) => Some (s2, c2, cevents rs ++ evs, cpacket_list rs ++ out)
+        | None => None
+        end
+      | _ => None
+      end
+    | _ => None
+    end
+  end.
+
+Theorem play_run3_keeps items : forall s c sid clock,
+  Link (sv_ser s) (cl_de c) -> ser_ok (cl_ser c) -> ser_ok (sv_ser s) -> playing_on c sid -> sid < 4294967296 -> clock < 4294967296 ->
+  Forall pitem_wf items ->
+  exists s' c' out,
+    play_run3 s c sid items clock = Some (s', c', map pitem_cevent items, out) /\
+    Link (sv_ser s') (cl_de c') /\ ser_ok (cl_ser c') /\ ser_ok (sv_ser s') /\ playing_on c' sid /\ cl_state c' = cl_state c /\
+    sends (cl_ser c) out (cl_ser c') /\ same_core s s' /\ sv_de s' = sv_de s.
+Proof.
+  induction items as [|i r IH]; intros s c sid clock HL Hcs Hss Hp Hsid Hclk Hwf.
+  - exists s, c, []. split; [reflexivity|]. repeat (split; [first [assumption|reflexivity|apply sends_nil|apply same_core_refl]|]). reflexivity.
+  - inversion Hwf as [|? ? Hi Hr]; subst. destruct i as [video data ts drop|md k]; cbn [pitem_wf] in Hi.
+    + destruct Hi as [Hts Hd].
+      set (m := {| m_ts := ts; m_tid := media_tid video; m_sid := sid; m_data := data |}).
+      assert (Hwfm : msg_wf m).
+      { unfold msg_wf, m. cbn [m_ts m_tid m_sid m_data]. repeat split; try assumption. destruct video; cbn; lia. }
+      assert (Htid : m_tid m <> 1) by (destruct video; cbn; lia).
+      destruct (link_message (sv_ser s) (cl_de c) m false drop HL Hwfm Htid) as [b [ser' [de1 [de3 [Hs [G1 [G2 HL2]]]]]]].
+      destruct (client_receives_media_out c b clock video data sid ts de1 de3 Hcs Hclk G1 G2 Hp)
+        as [c1 [pre [Hin [Hde [Hcs1 [Hp1 [Hst1 [Hsends Hpre]]]]]]]].
+      assert (Esend : server_send_media video s sid data ts drop = (upd_ser s ser', ROk [SPacket b drop])).
+      { unfold m in Hs. unfold server_send_media. destruct video; cbn [media_tid] in Hs;
+          unfold server_send_video, server_send_audio, one_packet, sending, send_message.
+        - change (to_payload (MVideoData data)) with (@Ok (N * bytes) msg_ser_err (9, data)). cbv iota beta. rewrite Hs. reflexivity.
+        - change (to_payload (MAudioData data)) with (@Ok (N * bytes) msg_ser_err (8, data)). cbv iota beta. rewrite Hs. reflexivity. }
+      assert (Hss1 : ser_ok ser').
+      { destruct (serialize_refused_or_ok (sv_ser s) m false drop Hss) as [_ Hok]. destruct Hwfm as [_ [_ [_ Hl]]].
+        destruct (Hok Hl) as [b' [st' [E' Hmx]]]. rewrite Hs in E'. injection E' as <- <-. unfold ser_ok. rewrite Hmx. exact Hss. }
+      destruct (IH (upd_ser s ser') c1 sid clock ltac:(cbn [sv_ser upd_ser]; rewrite Hde; exact HL2) Hcs1 Hss1 Hp1 Hsid Hclk Hr)
+        as [s2 [c2 [out [E3 [HL3 [Hcs2 [Hss2 [Hp2 [Hst2 [Hsends2 [Hcore Hde2]]]]]]]]]]].
+      exists s2, c2, (cpacket_list pre ++ out). cbn [play_run3 map pitem_cevent]. rewrite Esend, Hin, E3.
+      split. { rewrite cevents_pre by exact Hpre. rewrite cpacket_list_app. cbn [cevents flat_map List.app cpacket_list]. rewrite app_nil_r. reflexivity. }
+      split; [exact HL3|]. split; [exact Hcs2|]. split; [exact Hss2|]. split; [exact Hp2|]. split; [rewrite Hst2; exact Hst1|].
+      split; [exact (sends_app _ _ _ Hsends _ _ Hsends2)|]. split; [|rewrite Hde2; reflexivity].
+      destruct Hcore as [B1 [B2 [B3 [B4 [B5 [B6 [B7 B8]]]]]]]. repeat split; assumption.
+    + destruct Hi as [Hm [He Hk0]].
+      destruct (play_metadata_out s c sid md k clock HL Hcs Hss Hp Hsid Hk0 Hclk Hm He)
+        as [b [ser' [c1 [pre [Esend [Hin [Hpre [HL2 [Hcs1 [Hss1 [Hp1 [Hst1 Hsends]]]]]]]]]]]].
+      destruct (IH (upd_ser s ser') c1 sid clock HL2 Hcs1 Hss1 Hp1 Hsid Hclk Hr)
+        as [s2 [c2 [out [E3 [HL3 [Hcs2 [Hss2 [Hp2 [Hst2 [Hsends2 [Hcore Hde2]]]]]]]]]]].
+      exists s2, c2, (cpacket_list pre ++ out). cbn [play_run3 map pitem_cevent]. rewrite Esend, Hin, E3.
+      split. { rewrite cevents_pre by exact Hpre. rewrite cpacket_list_app. cbn [cevents flat_map List.app cpacket_list]. rewrite app_nil_r. reflexivity. }
+      split; [exact HL3|]. split; [exact Hcs2|]. split; [exact Hss2|]. split; [exact Hp2|]. split; [rewrite Hst2; exact Hst1|].
+      split; [exact (sends_app _ _ _ Hsends _ _ Hsends2)|]. split; [|rewrite Hde2; reflexivity].
+      destruct Hcore as [B1 [B2 [B3 [B4 [B5 [B6 [B7 B8]]]]]]]. repeat split; assumption.
+Qed.
+
+(* C02_play_session for sequences of metadata, audio and video items *)
+Theorem play_session_all_items c s app key items k1 k2 k3 k4 k5 k6 t1 t2 t3 t4 t5 km kd ks1 ks2 :
+  Link (cl_ser c) (sv_de s) -> Link (sv_ser s) (cl_de c) -> ser_ok (cl_ser c) -> ser_ok (sv_ser s) ->
+  cl_state c = Connected -> cl_next_tr c < 4294967296 -> sv_next_stream s < 4294967296 -> cc_buffer (cl_cfg c) < 4294967296 ->
+  sv_connected s = true -> sv_app s = Some app -> utf8_valid key = true -> lenN key <= 65000 ->
+  k1 < 4294967296 -> k2 < 4294967296 -> k3 < 4294967296 -> k6 < 4294967296 -> km < 4294967296 -> ks1 < 4294967296 ->
+  (forall w, ack_window (sv_ack s) = Some w -> ack_since (sv_ack s) + 3 * (17 * (lenN key + 200) + 16) < w) ->
+  (forall w, ack_window (cl_ack c) = Some w -> ack_since (cl_ack c) + 6 * (17 * (lenN key + 200) + 16) < w) ->
+  Forall pitem_wf items ->
+  exists c1 b1 s1 b2 c2 b3 b4 s2 s3 s4 p1 p2 p3 p4 p5 c3 c4 c5 c6 c7 s5 c8 out s6 c9 b9 s7 r,
+    client_request_playback c key k1 = (c1, COk [CPacket b1 false]) /\
+    server_handle_input s b1 k2 = (s1, ROk [SPacket b2 false]) /\
+    client_handle_input c1 b2 k3 = (c2, COk [CPacket b3 false; CPacket b4 false]) /\
+    server_handle_input s1 b3 k4 = (s2, ROk []) /\
+    server_handle_input s2 b4 k5 = (s3, ROk [SEvent (EvPlayRequested (sv_next_req s) app key LiveOrRecorded None false (sv_next_stream s))]) /\
+    server_accept s3 (sv_next_req s) k6 = (s4, ROk [SPacket p1 false; SPacket p2 false; SPacket p3 false; SPacket p4 false; SPacket p5 false]) /\
+    client_handle_input c2 p1 t1 = (c3, COk [CEvent (CUnhandleableStatus (str "NetStream.Play.Reset"))]) /\
+    client_handle_input c3 p2 t2 = (c4, COk []) /\
+    client_handle_input c4 p3 t3 = (c5, COk [CEvent CPlaybackAccepted]) /\
+    client_handle_input c5 p4 t4 = (c6, COk []) /\
+    client_handle_input c6 p5 t5 = (c7, COk []) /\
+    play_run3 s4 c7 (sv_next_stream s) items km = Some (s5, c8, map pitem_cevent items, out) /\
+    sdeliver s5 out kd = Some s6 /\
+    client_stop_playback c8 ks1 = (c9, COk [CPacket b9 false]) /\ cl_state c9 = Connected /\
+    server_handle_input s6 b9 ks2 = (s7, ROk r) /\ events r = [EvPlayFinished app key].
+Proof.
+  intros HL1 HL2 Hcs Hss Hst Htr Hid Hbuf Hconn Happ Hkey Hkl K1 K2 K3 K6 KM KS HWs HWc Hitems.
+  destruct (play_completes_windows c s app key k1 k2 k3 k4 k5 k6 t1 t2 t3 t4 t5 HL1 HL2 Hcs Hss Hst Htr Hid Hbuf Hconn Happ Hkey Hkl K1 K2 K3 K6 HWs HWc)
+    as [c1 [b1 [s1 [b2 [c2 [b3 [b4 [s2 [s3 [s4 [p1 [p2 [p3 [p4 [p5 [c3 [c4 [c5 [c6 [c7
+        [E1 [E2 [E3 [E4 [E5 [E6 [E7 [E8 [E9 [E10 [E11 [Hst7 [Hp7 [Hlk4 [Happ4 [Hconn4 [HLa [HLb [Hcs7 Hss4]]]]]]]]]]]]]]]]]]]]]]]]]]]]]]]]]]]]]]].
+  destruct (play_run3_keeps items s4 c7 (sv_next_stream s) km HLb Hcs7 Hss4 Hp7 Hid KM Hitems)
+    as [s5 [c8 [out [Erun [HL8 [Hcs8 [Hss5 [Hp8 [Hst8 [Hsends [Hcore5 Hde5]]]]]]]]]]].
+  destruct (server_absorbs (cl_ser c7) out (cl_ser c8) Hsends s5 kd ltac:(rewrite Hde5; exact HLa) Hss5)
+    as [s6 [Edel [Hcore6 [HL6 Hss6]]]].
+  destruct Hcore5 as [A1 [A2 [A3 [A4 [A5 [A6 [A7 A8]]]]]]]. destruct Hcore6 as [B1 [B2 [B3 [B4 [B5 [B6 [B7 B8]]]]]]].
+  destruct Hp8 as [_ Hstr8].
+  destruct (stop_playback_raises_finished c8 s6 (sv_next_stream s) app key ks1 ks2 HL6 Hcs8 Hss6 ltac:(rewrite Hst8; exact Hst7) Hstr8 Hid KS
+              ltac:(rewrite B4, A4; exact Hconn4) ltac:(rewrite B1, A1; exact Happ4) ltac:(rewrite B5, A5; exact Hlk4))
+    as [c9 [b9 [s7 [r [F1 [F2 [F3 [F4 [F5 _]]]]]]]]].
+  exists c1, b1, s1, b2, c2, b3, b4, s2, s3, s4, p1, p2, p3, p4, p5, c3, c4, c5, c6, c7, s5, c8, out, s6, c9, b9, s7, r.
+  repeat (split; [assumption|]). exact F5.
+Qed.
